@@ -54,7 +54,9 @@ DEFAULT_CFG = {'n_workers': None, 'path': 'str', 'author': 'nobody', 'version': 
 # what happens to the Rst / FormattedRst objects around the write that is observed; every directory written
 # in a history must satisfy the whole oracle
 HISTORIES = ['once', 'two-dirs', 'same-dir-twice', 'clean-rewrite', 'format-twice', 'rst-reused-before',
-             'rst-reused-after', 'three-dirs']
+             'rst-reused-after', 'three-dirs', 'same-dir-three-times', 'plain-dicts', 'plain-dicts-twice']
+# plain-dicts: a FormattedRst constructed directly (public constructor) from plain `dict`s that hold an entry,
+# possibly empty, for every section
 # several Rst objects formatting DIFFERENT reports (cfg['partners']) at overlapping times in one process:
 #   overlap-threads  when report i is half formatted, report i+1 is formatted in another thread, then i goes on
 #   overlap-nested   the same, in the same thread (a representer that formats another report)
@@ -193,6 +195,25 @@ def gen_tree(rng, max_depth, flaw, pool=None):
         root[2].insert(rng.randrange(len(root[2]) + 1), [rng.choice(vs), results() or [rng.randrange(NPOOL)], []])
         if not root[1]:
             root[1] = [rng.randrange(NPOOL)]
+    elif flaw == 'reserved-leaf':
+        # leaves whose titles look like files / directories of the report: all of this is VALID (no sub-sections)
+        have = {k[0] for k in root[2]}
+        for title in rng.sample(['conf.py', 'index.rst', 'figures', '.static', '.templates', '_static', 'conf'], 3):
+            if title not in have:
+                root[2].insert(rng.randrange(len(root[2]) + 1), [title, results(), []])
+                have.add(title)
+        for par in [root] + [n for _, n in nodes if n[2]]:
+            titles = [k[0] for k in par[2]]
+            base = rng.choice(titles) if titles else None
+            if base is not None and base + '.rst' not in titles and usable(base):
+                par[2].insert(rng.randrange(len(par[2]) + 1), [base + '.rst', results(), []])
+        for kid in root[2]:
+            if kid[0] == '.static' and 'valjean.css' not in [k[0] for k in kid[2]]:
+                kid[2].append(['valjean.css', results(), []])
+            if kid[0] == 'figures' and pool is not None:
+                i = rng.choice([j for j in range(NPOOL) if pool.plot_fps[j]])
+                kid[1].append(i)
+                kid[2].append([f'plot_{pool.plot_fps[i][0]}.png', [], []])
     elif flaw in ('shared-subreport', 'shared-twice'):
         # the same TestReport object below two parents (two title chains: two pages), or twice below one
         # parent (duplicate siblings: refused)
@@ -310,6 +331,8 @@ def gen_cases(ctx, pool):
             flaw = 'shared-subreport'
         elif r < 0.67:
             flaw = 'shared-twice'
+        elif r < 0.75:
+            flaw = 'reserved-leaf'
         cases.append(gen_tree(rng, rng.choice([1, 2, 3, 4, 4, 4]), flaw, pool))
     ctx.count('random', nrand)
     ncorpus = len(cases) - nrand
@@ -333,6 +356,16 @@ def gen_cases(ctx, pool):
             out.append({'tree': ['M', [with_plot[0]], [['A', [with_plot[1], without[0]], []]]],
                         'cfg': dict(DEFAULT_CFG, history=hist, n_workers=nw)})
         out.append({'tree': ['M', [0], [['A', [1], []], ['A', [2], []]]], 'cfg': dict(DEFAULT_CFG, history=hist)})
+    fp0 = pool.plot_fps[with_plot[0]][0]
+    leafy = ['M', [with_plot[0]], [['conf.py', [1], []], ['index.rst', [], []], ['X', [2], [['y', [], []]]],
+                                   ['X.rst', [3], []], ['figures', [], [[f'plot_{fp0}.png', [], []]]],
+                                   ['.static', [], [['valjean.css', [4], []]]], ['_static', [], []],
+                                   ['B', [], [['Z', [], []], ['Z.rst', [5], []]]]]]
+    for hist in ('once', 'two-dirs', 'three-dirs', 'same-dir-twice', 'same-dir-three-times', 'clean-rewrite',
+                 'format-twice', 'plain-dicts', 'plain-dicts-twice'):
+        out.append({'tree': leafy, 'cfg': dict(DEFAULT_CFG, history=hist)})
+    out.append({'tree': ['M', [0], [['conf.py', [], [['x', [], []]]]]],
+                'cfg': dict(DEFAULT_CFG, history='plain-dicts-twice')})
     ctx.count('corpus_configurations', len(out) - ncorpus)
     rand = [{'tree': tree, 'cfg': gen_cfg(rng)} for tree in cases[ncorpus:]]
     # overlapping format_report() calls: 12% of the random cases get one or two partner reports
@@ -583,9 +616,21 @@ def run_case(tree, wdir, pool, TestReport, cfg=None):
     except Exception as exc:     # noqa  (format_report refuses: nothing can have been written)
         base, rep_dir, _ = target(0)
         return [observe(base, rep_dir, pool, type(exc).__name__)]
+    if hist in ('plain-dicts', 'plain-dicts-twice'):
+        try:
+            keys = list(fmt.text_dict)
+            fmt = type(fmt)(author=cfg['author'], title=tree[0], version=cfg['version'],
+                            tree_dict={key: list(fmt.tree_dict.get(key, [])) for key in keys},
+                            text_dict={key: list(fmt.text_dict[key]) for key in keys},
+                            plots=dict(fmt.plots), n_workers=cfg['n_workers'])
+        except Exception as exc:     # noqa
+            base, rep_dir, _ = target(0)
+            return [observe(base, rep_dir, pool, type(exc).__name__)]
     out = []
-    if hist in ('once', 'rst-reused-before', 'rst-reused-after'):
+    if hist in ('once', 'rst-reused-before', 'rst-reused-after', 'plain-dicts'):
         plan = [0]
+    elif hist == 'plain-dicts-twice':
+        plan = [0, 1, 0]
     elif hist == 'two-dirs':
         plan = [0, 1]
     elif hist == 'three-dirs':
@@ -601,6 +646,11 @@ def run_case(tree, wdir, pool, TestReport, cfg=None):
         base, rep_dir, raised = write(first, 1)
         out.append(observe(base, rep_dir, pool, raised))
     if hist == 'same-dir-twice':
+        write(fmt, 0)
+        base, rep_dir, raised = write(fmt, 0)
+        out.append(observe(base, rep_dir, pool, raised))
+    if hist == 'same-dir-three-times':
+        write(fmt, 0)
         write(fmt, 0)
         base, rep_dir, raised = write(fmt, 0)
         out.append(observe(base, rep_dir, pool, raised))
